@@ -66,6 +66,9 @@ type Schemalocation = String;
 /// The `Files` struct is used to hold the XML content
 pub struct Files {
     map: HashMap<Schemalocation, FileContent>,
+    /// held while the files are being read: the per-file `processed` flags belong to one
+    /// `read_xml` call at a time (`FilesToRead` is `Sync`, several threads may share it)
+    reading: std::sync::Mutex<()>,
 }
 
 impl Files {
@@ -76,6 +79,7 @@ impl Files {
     {
         Files {
             map: HashMap::from([(file_name.to_string(), FileContent::new(xml.to_string()))]),
+            reading: std::sync::Mutex::new(()),
         }
     }
 
@@ -120,6 +124,10 @@ impl XmlReader {
     /// Returns an error if the XSD/WSDL is invalid
     pub fn read_xml(files_to_read: &FilesToRead) -> WriterResult<RustDocument> {
         let (content, start_with_file, files) = files_to_read.inner()?;
+        let _one_reader_at_a_time = files
+            .reading
+            .lock()
+            .unwrap_or_else(std::sync::PoisonError::into_inner);
 
         // the processed flags only guard against reading a file twice within one call;
         // a repeated call on the same files has to start from scratch
